@@ -88,6 +88,30 @@ def listening_ports_definition(eng: Engine, ck: Check):
         return True in verdicts and False not in verdicts and None in verdicts
     ok = len(rets) == 1 and isinstance(rets[0].value, ast.Tuple) and len(rets[0].value.elts) == 2
     why = 'the result is not one 2-tuple'
+    # the pair unpacked from a generator that yields exactly ONE value per listening connection, in order: `a, b = self._ports()` with
+    # `for c in self.listening_connections: if c and c.state == CONNECTED: yield c.port  else: yield 0`
+    if ok and all(isinstance(e_, ast.Name) for e_ in rets[0].value.elts):
+        names_ = [e_.id for e_ in rets[0].value.elts]
+        for n_ in walk_local(fn.node):
+            if isinstance(n_, ast.Assign) and len(n_.targets) == 1 and isinstance(n_.targets[0], ast.Tuple) and [unparse(t_) for t_ in n_.targets[0].elts] == names_ and \
+                    isinstance(n_.value, ast.Call) and isinstance(n_.value.func, ast.Attribute) and unparse(n_.value.func.value) == 'self' and not n_.value.args and not n_.value.keywords:
+                g = eng.repo.find_func('network/network.py', f'Network.{n_.value.func.attr}')
+                if g is None:
+                    continue
+                body = [s_ for s_ in g.node.body if not (isinstance(s_, ast.Expr) and isinstance(s_.value, ast.Constant))]
+                if len(body) == 1 and isinstance(body[0], ast.For) and unparse(body[0].iter) == 'self.listening_connections' and isinstance(body[0].target, ast.Name) and \
+                        not body[0].orelse and len(body[0].body) == 1 and isinstance(body[0].body[0], ast.If):
+                    c_ = body[0].target.id
+                    if_ = body[0].body[0]
+                    conj = [(unparse(x_), p_) for x_, p_ in split_conj(if_.test, True)]
+                    one = lambda b_: len(b_) == 1 and isinstance(b_[0], ast.Expr) and isinstance(b_[0].value, ast.Yield) and b_[0].value.value is not None
+                    if (c_, True) in conj and (f'{c_}.state == ConnectionState.CONNECTED', True) in conj and len(conj) == 2 and one(if_.body) and one(if_.orelse) and \
+                            unparse(if_.body[0].value.value) == f'{c_}.port' and const(if_.orelse[0].value.value) == 0 and \
+                            len([y_ for y_ in ast.walk(g.node) if isinstance(y_, (ast.Yield, ast.YieldFrom))]) == 2:
+                        ck.visited(g)
+                        ck.ob('R-C16-ADVERT', fn, fn.node, 'get_listening_ports() returns (clear port, obfuscated port): element i is the port of listening connection i when it is '
+                              'CONNECTED, 0 otherwise -- by position, not by arrival', True, '', construct='listening ports by position')
+                        return
     if ok:
         for i, el in enumerate(rets[0].value.elts):
             e = expand_aliases(fn, el, 2)
